@@ -15,7 +15,7 @@ import Rs1090.Proofs.DedupSpec
 namespace Rs1090.Props.C10
 open Rs1090 Rs1090.Dedup
 open Rs1090.Spec.Dedup (firstT closes WellFormed members recordOf records before Monotone Spaced
-  Ordered StrictlyOrdered)
+  Ordered StrictlyOrdered sortBy)
 
 /-! ### The invariant: cache and heap stay in step -/
 
@@ -129,12 +129,6 @@ theorem closed_groups_emitted_step (w : Nat) (s : State) (a : Arrival) (h : Inv 
   have := (stepG_spec a h).2.1 ▸ hg
   simpa [closes] using (List.mem_filter.mp this).2
 
-theorem runG_snoc (w : Nat) : ∀ (hist : List Arrival) (s : State) (a : Arrival),
-    runG w s (hist ++ [a]) =
-      ((stepG w (runG w s hist).1 a).1, (runG w s hist).2 ++ (stepG w (runG w s hist).1 a).2)
-  | [], s, a => by simp [runG]
-  | b :: bs, s, a => by simp [runG, runG_snoc w bs (stepG w s b).1 a, List.append_assoc]
-
 /-- **closed groups are emitted** (histories): after any history ending with an arrival at time
     `t`, every group still pending has first + w > t. -/
 theorem closed_groups_emitted (w : Nat) (dec : Frame → Bool) (hist : List Arrival) (a : Arrival) :
@@ -162,16 +156,6 @@ theorem sent_or_window_open (w : Nat) (dec : Frame → Bool) (hist : List Arriva
   · exact Or.inr ⟨g, hg, hxg, closed_groups_emitted w dec hist a g hg⟩
 
 /-! ### Non-decreasing arrival times -/
-
-theorem mono_init (w : Nat) {hist : List Arrival} (hm : Monotone hist) :
-    Bounded w 0 init ∧ MonoFrom 0 hist :=
-  ⟨fun _ h => by simp [init] at h, ⟨hm, fun _ _ => Nat.zero_le _⟩⟩
-
-theorem pairwise_records {R : Group → Group → Prop} {Q : Record → Record → Prop}
-    (dec : Frame → Bool) {gs : List Group} (h : gs.Pairwise R)
-    (hq : ∀ g h, R g h → Q (recordOf g) (recordOf h)) : (records dec gs).Pairwise Q := by
-  simp only [records]
-  exact List.pairwise_map.mpr ((h.sublist List.filter_sublist).imp (hq _ _))
 
 /-- **spacing**: when arrival times never decrease, two records with the same frame have first
     arrivals at least `w` apart (the later one at or after the earlier one + w). -/
@@ -244,6 +228,40 @@ theorem never_panics (w : Nat) (dec : Frame → Bool) (hist : List Arrival)
 /-- The fuel of the model's expiry loop is never what stops it. -/
 theorem fuel_irrelevant (t n m : Nat) (s : State) (hn : s.heap.length < n) (hm : s.heap.length < m) :
     expire t n s = expire t m s := expire_fuel t n m s hn hm
+
+/-! ### decode1090's inline copy: the same loop, plus a flush at end of file -/
+
+/-- The records decode1090 writes for a file are those of the specification with a final flush:
+    the groups still open at end of file leave too, ordered like the others. -/
+theorem eof_flush_refines (w : Nat) (dec : Frame → Bool) (hist : List Arrival) :
+    runFlush w dec hist = Spec.Dedup.runFlush w dec hist := by
+  have hinv := inv_runG (w := w) hist (Dedup.inv_init w)
+  have href : ((runG w init hist).1.cache, (runG w init hist).2) = Spec.Dedup.runG w [] hist :=
+    runG_refines (w := w) hist (Dedup.inv_init w)
+  have hwf : ∀ g ∈ sortBy (runG w init hist).1.cache, WellFormed g := fun g hg =>
+    hinv.wf g ((sortBy_perm _).subset hg)
+  simp only [runFlush, Spec.Dedup.runFlush, records_of_groups, flush_eq_sortBy hinv,
+    flatMap_emit dec hwf, records_append]
+  rw [← href]
+
+/-- … and with the flush nothing stays behind: the lines of the file are, as a multiset, the members
+    of the groups written ⊎ the members of the undecodable groups. -/
+theorem eof_flush_conservation (w : Nat) (dec : Frame → Bool) (hist : List Arrival) :
+    ∃ groups : List Group, runFlush w dec hist = records dec groups ∧
+      hist.Perm (members (groups.filter (fun g => dec g.1)) ++
+                 members (groups.filter (fun g => !dec g.1))) := by
+  have hinv := inv_runG (w := w) hist (Dedup.inv_init w)
+  have href : ((runG w init hist).1.cache, (runG w init hist).2) = Spec.Dedup.runG w [] hist :=
+    runG_refines (w := w) hist (Dedup.inv_init w)
+  refine ⟨(runG w init hist).2 ++ sortBy (runG w init hist).1.cache, ?_, ?_⟩
+  · rw [eof_flush_refines]
+    simp only [Spec.Dedup.runFlush, ← href]
+  · have h := runG_members (w := w) hist (Dedup.inv_init w)
+    simp only [pending, init, List.map_nil, List.flatten_nil, List.nil_append] at h
+    rw [← members_append]
+    refine ((members_perm (List.filter_append_perm _ _)).trans ?_).symm
+    rw [members_append]
+    exact (List.Perm.append_left _ (members_perm (sortBy_perm _))).trans h
 
 /-! ### Non-vacuity, sharpness, and what the property does *not* say -/
 
